@@ -38,7 +38,7 @@ type Prog struct {
 func Load(repo, goos string, patterns []string) (*Prog, error) {
 	t0 := time.Now()
 	env := os.Environ()
-	env = append(env, "GOFLAGS=-mod=mod", "GOPROXY=off", "GOSUMDB=off", "GOTOOLCHAIN=local", "GOWORK=off", "CGO_ENABLED=0")
+	env = append(env, "GOFLAGS=-mod=mod -trimpath", "GOPROXY=off", "GOSUMDB=off", "GOTOOLCHAIN=local", "GOWORK=off", "CGO_ENABLED=0")
 	if goos != "" {
 		env = append(env, "GOOS="+goos)
 	}
@@ -107,6 +107,9 @@ func Load(repo, goos string, patterns []string) (*Prog, error) {
 		}
 	}
 	sort.Slice(P.allFuncs, func(i, j int) bool { return P.pos(P.allFuncs[i].Pos()) < P.pos(P.allFuncs[j].Pos()) })
+	theProg = P
+	sats = buildSatIndex(P)
+	sats.disabled = os.Getenv("PLZCHECK_NOSAT") != ""
 	P.LoadS = time.Since(t0).Seconds()
 	return P, nil
 }
